@@ -189,7 +189,8 @@ def plan_c21(tier, seed, regen):
                        parts({"gen": "pairs", "W": 4, "kinds": SOUND_KINDS, "ops": SOUND_PAIR_OPS, "rate": rate,
                               "seed": seed * 7919 + 1}, N)))
     if thorough and not regen:
-        phases.append(("wide", "seeded", parts({"gen": "wide", "n": 400, "seed": seed * 31 + 5, "pairs": 64}, N)))
+        # 8..64 bits: ~10 ops per interval pair; membership on bit sequences costs ~1 ms per test at 64 bits
+        phases.append(("wide", "seeded", parts({"gen": "wide", "n": 60, "seed": seed * 31 + 5, "pairs": 16}, N)))
     return phases
 
 
@@ -440,3 +441,41 @@ def replay(pid, path):
     for _, ev, clause, _x in bad:
         print("  still failing:", clause, json.dumps(ev)[:400])
     return 1 if bad else 0
+
+
+def propose(path=None):
+    """write findings/vsa-proposed-findings.json: one proposed known_findings.json entry per finding class seen in the
+    latest evidence files (ids and instance counts are taken from the runs, texts from WHAT)"""
+    out = []
+    for pid in ("C21", "C22", "C23", "C24", "C25"):
+        p = os.path.join(C.EVID, pid + ".json")
+        if not os.path.exists(p):
+            continue
+        with open(p) as f:
+            ev = json.load(f)
+        for fid, cnt in sorted(ev["coverage"].get("known_findings_matched", {}).items()):
+            op = fid.split("-", 1)[1]
+            base = op.replace("conv-", "").split("-")[0]
+            if pid == "C24":
+                what = "vsa.convert of terms whose top operator is %s misses concrete values (consequence of the " \
+                       "interval defects listed under C21/C22)" % base
+            elif pid == "C25":
+                what = "constraint_to_si, constraint shape %s: satisfiable constraint reported unsat (wrapped balanced " \
+                       "bound / assumption balancing) or bound that cuts off satisfying assignments" % op
+            else:
+                what = WHAT.get(base, "listed failing inputs")
+            out.append({"property": pid, "id": fid, "status": "open", "what": what,
+                        "match": {"exact_set": f"findings/{pid}-exact.txt", "class": op,
+                                  "signature": "C.sig([kind, op, entry points, ctx, operands, params, clause])[:13]"},
+                        "instances_%s_tier" % ev["tier"]: cnt})
+    path = path or os.path.join(C.VERIF, "findings", "vsa-proposed-findings.json")
+    with open(path, "w") as f:
+        json.dump({"_doc": "proposed entries for known_findings.json (VSA engine, C21..C25); the exact failing-input sets "
+                           "are findings/C2x-exact.txt, regenerated only by ./check C2x --regen", "findings": out}, f, indent=1)
+    print(f"wrote {path} ({len(out)} entries)")
+
+
+if __name__ == "__main__":
+    import sys
+    if len(sys.argv) > 1 and sys.argv[1] == "propose":
+        propose()
